@@ -118,7 +118,20 @@ func (w *c13World) Start(x *h.Exec) {
 			plan.Status = append(plan.Status, h.StatusCall{Rcpt: c13Addr(c.Calls[k]), Err: c13StatusErr(k), AfterRead: k >= c.Before})
 		}
 	}
-	w.be.Plan = func(int) h.DataPlan { return plan }
+	w.be.Plan = func(idx int) h.DataPlan {
+		if idx == 0 {
+			return plan
+		}
+		// the follow-up transaction (recipients b, a, a): every recipient gets a status that names it
+		p2 := h.DataPlan{Max: -1}
+		if !c.Plain {
+			for i, ch := range []byte("baa") {
+				n := c13Addr(ch)
+				p2.Status = append(p2.Status, h.StatusCall{Rcpt: n, Err: &smtp.SMTPError{Code: 450 + i, EnhancedCode: smtp.EnhancedCode{4, 8, i}, Message: fmt.Sprintf("second-%d-for-%c", i, ch)}})
+			}
+		}
+		return p2
+	}
 	armed := false
 	w.be.Gate = func(step string) {
 		if armed {
@@ -175,6 +188,16 @@ func (w *c13World) Finish(x *h.Exec) *h.Finding {
 	w.client.Write([]byte("NOOP\r\n"))
 	h.Wait()
 	tail := w.client.In.Drain()
+	// a second, chunked transaction on the same connection with another recipient list (b, a, a):
+	// nothing of the first transaction's status bookkeeping may survive
+	var second []byte
+	if w.c.Ret != "panic" {
+		env := "MAIL FROM:<ok@a2.example>\r\n" + fmt.Sprintf("RCPT TO:<%s>\r\nRCPT TO:<%s>\r\nRCPT TO:<%s>\r\n", c13Addr('b'), c13Addr('a'), c13Addr('a'))
+		// always chunked: BDAT keeps per-transaction state on the connection between commands
+		w.client.Write([]byte(env + "BDAT 8 LAST\r\nsecond\r\n"))
+		h.Wait()
+		second = w.client.In.Drain()
+	}
 	w.client.Out.End(io.EOF)
 	h.Wait()
 	c := w.c
@@ -241,6 +264,9 @@ func (w *c13World) Finish(x *h.Exec) *h.Finding {
 		trs, terr := ref.ParseReplies(tail)
 		if terr != nil || len(trs) != 1 || trs[0].Code != 250 {
 			return h.F("c13-out-of-step", "%s: a NOOP after the transfer was answered %q", desc, tail)
+		}
+		if f := c13SecondTransaction(desc, c, second); f != nil {
+			return f
 		}
 	}
 	if c.Ret != "panic" && strings.Contains(w.log.String(), "panic") {
@@ -343,4 +369,34 @@ func C13(tier string) int {
 		}
 	})
 	return run.Finish()
+}
+
+// c13SecondTransaction judges the follow-up transaction (recipients b, a, a).
+func c13SecondTransaction(desc string, c C13Case, wire []byte) *h.Finding {
+	rs, err := ref.ParseReplies(wire)
+	if err != nil {
+		return h.F("c13-second-bad-wire", "%s: second transaction: %v (%q)", desc, err, wire)
+	}
+	// MAIL, 3x RCPT, [354], 3 final replies
+	want := 4 + 3
+	if len(rs) != want {
+		return h.F("c13-second-reply-count", "%s: the second transaction (recipients b,a,a) got %d replies, want %d: %q", desc, len(rs), want, wire)
+	}
+	final := rs[len(rs)-3:]
+	for i, ch := range []byte("baa") {
+		text := strings.Join(final[i].Text, " ")
+		if !strings.HasPrefix(text, "<"+c13Addr(ch)+">") {
+			return h.F("c13-second-not-attributed", "%s: second transaction: reply %d does not name %s: %s", desc, i, c13Addr(ch), final[i].String())
+		}
+		if c.Plain {
+			if final[i].Code != 250 {
+				return h.F("c13-second-wrong-status", "%s: second transaction: reply %d is %s, want 250", desc, i, final[i].String())
+			}
+			continue
+		}
+		if final[i].Code != 450+i || !strings.Contains(text, fmt.Sprintf("second-%d-for-%c", i, ch)) {
+			return h.F("c13-second-wrong-status", "%s: second transaction: reply %d for %s is %s, want %d second-%d-for-%c", desc, i, c13Addr(ch), final[i].String(), 450+i, i, ch)
+		}
+	}
+	return nil
 }
